@@ -1,6 +1,6 @@
 """Property -> rules."""
 from .prog import Program
-from . import rules_cg, lalr, rules_dispatch
+from . import rules_cg, lalr, rules_dispatch, rules_wrap
 
 _progs = {}
 
@@ -34,7 +34,14 @@ def c04(chk, tier):
     rules_dispatch.r_dispatch_text(P(), chk, disp)
 
 
+def c06(chk, tier):
+    chk.explanation = "Static: R-WRAP W1-W5 (delegation, language, ownership, per-format agreement, CLI) and R-PTRPTR."
+    rules_wrap.r_wrap(P(), chk)
+    rules_wrap.r_ptrptr(P(), chk)
+
+
 PROPS = {
+    "C06": ("other", c06),
     "C04": ("other", c04),
     "C02": ("other", c02),
     "C05": ("other", c05),
